@@ -2,6 +2,7 @@ package main
 
 import (
 	"fmt"
+	"go/token"
 	"go/types"
 	"sort"
 	"strings"
@@ -108,6 +109,17 @@ func (f *FnEnc) topo() []*ssa.BasicBlock {
 func (f *FnEnc) modSet(blocks map[*ssa.BasicBlock]bool) (map[*ssa.Alloc]bool, map[string]bool) {
 	cells := map[*ssa.Alloc]bool{}
 	comps := map[string]bool{}
+	// freshMods: components changed only at references allocated during the blocks (allocation
+	// zeroing and callees with @fresh frames); fullMods: everything else
+	f.lastFreshMods = map[string]bool{}
+	f.lastFullMods = map[string]bool{}
+	defer func() {
+		for c := range comps {
+			if !f.lastFreshMods[c] {
+				f.lastFullMods[c] = true
+			}
+		}
+	}()
 	all := func() {
 		for _, n := range f.e.reg.compOrd {
 			comps[n] = true
@@ -132,7 +144,14 @@ func (f *FnEnc) modSet(blocks map[*ssa.BasicBlock]bool) (map[*ssa.Alloc]bool, ma
 				if x.Heap {
 					comps["W"] = true
 					el := x.Type().(*types.Pointer).Elem()
-					f.addTypeComps(el, comps)
+					tmp := map[string]bool{}
+					f.addTypeComps(el, tmp)
+					for c := range tmp {
+						if !comps[c] {
+							f.lastFreshMods[c] = true
+						}
+						comps[c] = true
+					}
 				} else {
 					cells[x] = true
 				}
@@ -140,7 +159,13 @@ func (f *FnEnc) modSet(blocks map[*ssa.BasicBlock]bool) (map[*ssa.Alloc]bool, ma
 				if c := cellOf(x.Addr); c != nil {
 					cells[c] = true
 				} else {
-					f.addStoreComps(x.Addr, comps)
+					tmp := map[string]bool{}
+					f.addStoreComps(x.Addr, tmp)
+					for c := range tmp {
+						comps[c] = true
+						delete(f.lastFreshMods, c)
+						f.lastFullMods[c] = true
+					}
 				}
 			case *ssa.MakeSlice:
 				comps["W"] = true
@@ -303,8 +328,9 @@ func (f *FnEnc) encode() {
 	}
 	f.out.WriteString(f.e.lemmaAxioms(uses))
 	f.emit("(assert (>= %s 0))", st.comps["W"])
+	f.relevant = f.relevantComps()
 	for _, n := range f.e.reg.compOrd {
-		if c, ok := st.comps[n]; ok {
+		if c, ok := st.comps[n]; ok && f.relevant[n] {
 			if wf := f.heapWF(n, c, st.comps["W"]); wf != "" {
 				f.emit("(assert %s)", wf)
 			}
@@ -500,6 +526,12 @@ func (f *FnEnc) loopHead(li *loopInfo) {
 	// inv-init at the merged pre-state
 	f.checkInvariants(li, "inv-init")
 	cells, comps := f.modSet(li.blocks)
+	freshOnly := map[string]bool{}
+	for c := range f.lastFreshMods {
+		if !f.lastFullMods[c] {
+			freshOnly[c] = true
+		}
+	}
 	if f.c != nil {
 		if extra, ok := f.c.LoopMods[li.ord]; ok {
 			for _, n := range f.e.compsMatching(extra) {
@@ -522,7 +554,13 @@ func (f *FnEnc) loopHead(li *loopInfo) {
 		f.assume(fmt.Sprintf("(>= %s %s)", st.comps["W"], pre.comps["W"]))
 	}
 	for _, n := range f.e.reg.compOrd {
-		if comps[n] && st.comps[n] != pre.comps[n] {
+		// components the loop changes only at freshly allocated references keep their old part
+		if comps[n] && freshOnly[n] && st.comps[n] != pre.comps[n] && strings.HasPrefix(f.e.reg.comps[n].Sort, "(Array Int ") {
+			f.assume(frameFact(st.comps[n], pre.comps[n], pre.comps["W"]))
+		}
+	}
+	for _, n := range f.e.reg.compOrd {
+		if comps[n] && st.comps[n] != pre.comps[n] && f.relevant[n] {
 			if wf := f.heapWF(n, st.comps[n], st.comps["W"]); wf != "" {
 				f.assume(wf)
 			}
@@ -654,4 +692,41 @@ func (f *FnEnc) bindResults(env map[string]string, results *types.Tuple, res []V
 
 func isErrorType(t types.Type) bool {
 	return types.Identical(t, types.Universe.Lookup("error").Type())
+}
+
+// relevantComps: the heap components the function reads or writes, or that its own contract or
+// the contracts of its callees mention. Well-formedness facts are only stated for these.
+func (f *FnEnc) relevantComps() map[string]bool {
+	out := map[string]bool{"W": true}
+	all := map[*ssa.BasicBlock]bool{}
+	for _, b := range f.fn.Blocks {
+		all[b] = true
+	}
+	_, mods := f.modSetQuiet(all)
+	for c := range mods {
+		out[c] = true
+	}
+	at := map[string]bool{}
+	contractAtoms(f.c, at)
+	for _, b := range f.fn.Blocks {
+		for _, in := range b.Instrs {
+			switch x := in.(type) {
+			case *ssa.UnOp:
+				if x.Op == token.MUL {
+					f.addStoreComps(x.X, out)
+				}
+			case ssa.CallInstruction:
+				ct, _, _ := f.staticCallContract(x.Common())
+				contractAtoms(ct, at)
+			}
+		}
+	}
+	f.e.compsOfAtoms(at, out)
+	return out
+}
+
+func (f *FnEnc) modSetQuiet(blocks map[*ssa.BasicBlock]bool) (map[*ssa.Alloc]bool, map[string]bool) {
+	cells, comps := f.modSet(blocks)
+	// an unknown callee makes everything relevant; that is fine
+	return cells, comps
 }
